@@ -327,3 +327,17 @@ func Deadline(tier string, quick, thorough time.Duration) time.Time {
 	}
 	return time.Now().Add(quick)
 }
+
+// Pick selects about one in n of the given ids, by a hash of the id rather than by position: a positional stride
+// aliases with the innermost loops of the enumeration (every n-th scenario then has the same last feature).
+func Pick(id string, n int) bool {
+	h := uint32(2166136261)
+	for i := 0; i < len(id); i++ {
+		h ^= uint32(id[i])
+		h *= 16777619
+	}
+	h ^= h >> 15
+	h *= 2246822519
+	h ^= h >> 13
+	return h%uint32(n) == 0
+}
